@@ -1,5 +1,6 @@
 import PoolProofs.C17Lemmas
 import PoolProofs.C17LemmasFunding
+import PoolModel.Generated.C17State
 
 /-!
 # C17 — maker and taker derive the same channel; the taker admits only that channel
@@ -438,6 +439,17 @@ theorem C17_det_table (x y : Nat) :
   simp only [Gen.C17.detCases, evalDetCases, evalCond]
   by_cases hx1 : x = 1 <;> by_cases hy1 : y = 1 <;> by_cases hx2 : x = 2 <;> by_cases hy2 : y = 2 <;>
     simp [hx1, hy1, hx2, hy2, rpcCommitScriptEnforcedLease, rpcCommitSimpleTaproot, rpcCommitUnknown]
+
+/-- **(R)** the derivation is a function of its arguments: no function in the intra-package call graphs of
+`order.PendingChanKey`, `DetermineCommitmentType`, `Kit.Nonce/Details`, `SupplyUnit.ToSatoshis`,
+`funding.Manager.deriveFundingShim`, `CancelPendingFundingShims` and `poolscript.FundingOutput` references a
+package-level variable other than the logger – so the model's pure functions also describe calls made concurrently
+from the daemon's batch handler and sidecar acceptor goroutines (exercised by the `conc` cases of the harness). -/
+theorem C17_derivation_stateless :
+    Gen.C17.derivationPkgVarRefs.filter (fun r => r.2 != "log") = [] ∧
+    "order/PendingChanKey" ∈ Gen.C17.derivationCallGraph ∧
+    "funding/Manager.deriveFundingShim" ∈ Gen.C17.derivationCallGraph := by
+  refine ⟨by decide, by decide, by decide⟩
 
 /-- **(R)** field mapping of the `lnrpc.OpenChannelRequest` literal in `BatchChannelSetup` and of the
 `lnrpc.ChanPointShim` / `lnrpc.ChannelPoint` literals in `deriveFundingShim`, regenerated from the source: the fields
